@@ -182,8 +182,11 @@ def groundSym (P : FOProgram) : List SRule × List Sem.Group := groundStmts P.co
 def herbrand (P : FOProgram) : List GAtom :=
   P.preds.flatMap (fun (p, ar) => (tuples P.consts ar).map (GAtom.mk p))
 
+/-- position in the table `H` (`H.length` if absent) -/
+def idIn (H : List GAtom) (a : GAtom) : Nat := H.idxOf a
+
 /-- atoms outside the Herbrand base get the out-of-range id `natoms` (never true, never set): see `wellFormed` -/
-def atomId (P : FOProgram) (a : GAtom) : Nat := (herbrand P).idxOf a
+def atomId (P : FOProgram) (a : GAtom) : Nat := idIn (herbrand P) a
 
 def SRule.toRule (aid : GAtom → Nat) (r : SRule) : Sem.Rule :=
   { head := aid r.head
@@ -191,12 +194,14 @@ def SRule.toRule (aid : GAtom → Nat) (r : SRule) : Sem.Rule :=
     neg := (r.body.filter (fun l => !l.1)).map (fun l => aid l.2)
     choice := r.choice }
 
-/-- The Herbrand instantiation. -/
+/-- The Herbrand instantiation (`idIn H` is `atomId P`; the table is built once). -/
 def ground (P : FOProgram) : Sem.Prog :=
-  { natoms := (herbrand P).length
+  let H := herbrand P
+  let g := groundSym P
+  { natoms := H.length
     nchoices := totalChoices P.consts P.stmts
-    rules := (groundSym P).1.map (SRule.toRule (atomId P))
-    groups := (groundSym P).2 }
+    rules := g.1.map (SRule.toRule (idIn H))
+    groups := g.2 }
 
 /-! ### queries and evidence -/
 
@@ -209,9 +214,13 @@ def queryInst (cs : List String) (q : Atom) : List GAtom :=
 /-- `spine.query_instances` -/
 def queryInstances (P : FOProgram) : List GAtom := dedup (P.queries.flatMap (queryInst P.consts))
 
-def queryIds (P : FOProgram) : List Nat := (queryInstances P).map (atomId P)
+def queryIds (P : FOProgram) : List Nat :=
+  let H := herbrand P
+  (queryInstances P).map (idIn H)
 
-def evidenceIds (P : FOProgram) : List (Nat × Bool) := P.evidence.map (fun (a, v) => (atomId P (a.subst []), v))
+def evidenceIds (P : FOProgram) : List (Nat × Bool) :=
+  let H := herbrand P
+  P.evidence.map (fun (a, v) => (idIn H (a.subst []), v))
 
 /-- every ground atom the program mentions belongs to the Herbrand base of the declared signature
     (so that `atomId` is injective on them) -/
